@@ -366,7 +366,7 @@ TickP2P(gg, r) ==
       finV == IF ok /\ r.run THEN FinalF(g1, p, pe1, pe1.ver + 1, hi, r) ELSE <<>>
       ver1 == IF ok /\ r.run THEN Max2(pe1.ver, hi) ELSE pe1.ver
       lo   == Min2(ver1 + 1, r.cur - gg.W - 2) - 1
-      pe2  == [pe1 EXCEPT !.ncalls = @ + 1,
+      pe2  == [pe1 EXCEPT !.ncalls = IF gg.isSync[p] THEN @ + 1 ELSE @,   \* (only sync tests need it; unbounded otherwise)
                           !.lastStall = ok /\ acc.nNew = 0,
                           !.glitchCall = IF @ = -1 /\ Get(r, "glitched", FALSE) THEN pe0.ncalls + 1 ELSE @,
                           !.mismatch = @ \/ r.r = "E:MismatchedChecksum",
